@@ -156,7 +156,7 @@ theorem add_nothing_else (h : smartAdd c f = .ok f') (hg : f.get q = some (i, k)
         | bzr => rw [onPath_of_named_bzr hf hsw.1.1.2] at hp'; cases hp'
         | git =>
           simp only [step, startsWalk, hsw, visitFlag, hf, hv, hp'] at hflag
-          simp_all
+          cases hn : namedTreeRef c i k <;> simp [hn] at hflag
     cases m' with
     | idle => rw [idle_child_exact q .idle (by simp) hsw] at hflag; simp [hv, hp'] at hflag
     | dead => rw [idle_child_exact q .dead (by simp) hsw] at hflag; simp [hv, hp'] at hflag
